@@ -25,7 +25,7 @@ import (
 
 type c19L2 struct {
 	segments, builds, frames, harness int
-	samples                          []string
+	samples                           []string
 }
 
 const c19ProbeSrc = `package main
@@ -199,6 +199,41 @@ outer:
 }
 `
 
+const c19HelperSrc = `package helper
+
+import "github.com/gopherjs/gopherjs/js"
+
+func P(n int) int { return js.Global.Call("verifProbe", n).Int() }
+
+// Twice sits in a package that ships JavaScript files: one holds nothing but comments, one has no final newline.
+func Twice(a int) int {
+	b := P(80) // P80
+	if a%2 == 0 { // even
+		b += P(81) // P81
+	}
+	return a + a + b
+}
+
+var Table = map[string]int{"k": P(82)} // P82
+
+func init() {
+	P(83) // P83
+}
+`
+
+// c19ProbeFiles: the probe program; %HELPER% is the import path of its helper package.
+func c19ProbeFiles() map[string]string {
+	mod := diffrun.ModName("c19_probe")
+	main := strings.Replace(c19ProbeSrc, "import \"github.com/gopherjs/gopherjs/js\"", "import (\n\t\"github.com/gopherjs/gopherjs/js\"\n\n\t\""+mod+"/helper\"\n)", 1)
+	main = strings.Replace(main, "\tmoreForms(a)\n", "\tmoreForms(a + helper.Twice(2) + helper.Table[\"k\"])\n", 1)
+	return map[string]string{
+		"main.go":                   main,
+		"helper/helper.go":          c19HelperSrc,
+		"helper/a_comments.inc.js":  "// nothing but comments\n/* in this file */\n",
+		"helper/b_nonewline.inc.js": "$global.c19helper = function() { return 1; };",
+	}
+}
+
 var reProbe = regexp.MustCompile(`// P(\d+)( P\d+)*`)
 var reProbeN = regexp.MustCompile(`P(\d+)`)
 
@@ -211,7 +246,7 @@ func c19Programs(tier string, rep *evid.Reporter) c19L2 {
 	defer env.Close()
 	env.Rep = rep
 	// layer 2: whole-program maps of corpus programs
-	progs := []diffrun.Program{panics.OpsProgram(), alias.AliasProgram(), susp.Programs()[0], {Name: "c19_probe", NoHelpers: true, Files: map[string]string{"main.go": c19ProbeSrc}}}
+	progs := []diffrun.Program{panics.OpsProgram(), alias.AliasProgram(), susp.Programs()[0], {Name: "c19_probe", NoHelpers: true, Files: c19ProbeFiles()}}
 	preludeSrc := map[string]string{}
 	for _, pf := range prelude.PreludeFiles() {
 		preludeSrc[filepath.Base(pf.Name)] = pf.Source
@@ -345,16 +380,23 @@ func c19Frames(env *diffrun.Env, rep *evid.Reporter, script string, dms []*sourc
 	}
 	// expected lines from the markers
 	want := map[int]int{}
+	wantFile := map[int]string{}
 	multiline := map[int]bool{14: true}
-	for i, l := range strings.Split(c19ProbeSrc, "\n") {
-		for _, mk := range reProbe.FindAllString(l, -1) {
-			for _, mm := range reProbeN.FindAllStringSubmatch(mk, -1) {
-				n, _ := strconv.Atoi(mm[1])
-				want[n] = i + 1
+	for name, src := range c19ProbeFiles() {
+		if !strings.HasSuffix(name, ".go") {
+			continue
+		}
+		for i, l := range strings.Split(src, "\n") {
+			for _, mk := range reProbe.FindAllString(l, -1) {
+				for _, mm := range reProbeN.FindAllStringSubmatch(mk, -1) {
+					n, _ := strconv.Atoi(mm[1])
+					want[n] = i + 1
+					wantFile[n] = filepath.Base(name)
+				}
 			}
 		}
 	}
-	want[14] = want[13] // the statement starts on P13's line
+	want[14] = want[13]     // the statement starts on P13's line
 	want[50] = want[50] - 2 // the call statement starts two lines above its last argument
 	want[47] = want[46]     // the case clause starts on P46's line
 	want[16] = want[16] - 1 // the communication clause belongs to the select statement, which starts one line above
@@ -410,8 +452,8 @@ func c19Frames(env *diffrun.Env, rep *evid.Reporter, script string, dms []*sourc
 			rep.Violation(id, fmt.Sprintf("frame %d:%d has no mapping at or before it on its line", line, col), nil)
 			continue
 		}
-		if best.OriginalFile != "main.go" || best.OriginalLine != want[n] {
-			rep.Violation(id, fmt.Sprintf("frame %d:%d resolves to %s:%d, the statement is at main.go:%d", line, col, best.OriginalFile, best.OriginalLine, want[n]), map[string]string{"main.go": c19ProbeSrc})
+		if filepath.Base(best.OriginalFile) != wantFile[n] || best.OriginalLine != want[n] {
+			rep.Violation(id, fmt.Sprintf("frame %d:%d resolves to %s:%d, the statement is at %s:%d", line, col, best.OriginalFile, best.OriginalLine, wantFile[n], want[n]), c19ProbeFiles())
 		}
 	}
 	for n := range want {
